@@ -2,13 +2,15 @@
   Model of torf's tracker / webseed / httpseed lists (property C16).
 
   Code modelled (shape of the code, one definition per routine):
-    torf/_utils.py  MonitoredList  (__setitem__, __delitem__, insert, replace, clear and the
-                                    inherited MutableSequence append/extend/+=/remove/pop)
+    torf/_utils.py  MonitoredList  (__setitem__ [coerce, assign on a copy, clear, add every item again
+                                    through the filter — /repo e62ce6d], __delitem__, insert, replace,
+                                    clear and the inherited MutableSequence append/extend/+=/remove/pop)
                     URL, URLs      (coercion `str(s).replace(' ', '+')`, validation of the ORIGINAL
                                     string AND of the coerced string, blank-string rule,
                                     `_get_known_urls` cross-tier filter)
                     Trackers       (tiers are URLs objects; `_tier_changed` empty-tier removal;
-                                    `tier not in self._tiers` = frozenset equality)
+                                    `tier not in self._tiers` = frozenset equality; `replace` builds
+                                    `Trackers(tiers)` before it clears — /repo 41bec34)
     torf/_torrent.py  trackers/webseeds/httpseeds getters (rebuild the list object from the
                     metainfo on every access), setters, `_trackers_changed`, `_webseeds_changed`,
                     `_httpseeds_changed` (write-back).
@@ -63,6 +65,40 @@ def sliceRange (n : Nat) (a b : Option Int) : Nat × Nat :=
 /-- `xs[lo:hi] = vs` on a Python list -/
 def splice (xs : List α) (lo hi : Nat) (vs : List α) : List α :=
   xs.take lo ++ vs ++ xs.drop hi
+
+/-- `slice(a, b, st).indices(n)` for `st ≠ 0`: normalised `(start, stop)` -/
+def sliceIndices (n : Nat) (a b : Option Int) (st : Int) : Int × Int :=
+  let lower : Int := if st < 0 then -1 else 0
+  let upper : Int := if st < 0 then (n : Int) - 1 else n
+  let norm := fun (i : Int) => if i < 0 then max (i + n) lower else min i upper
+  (match a with | none => (if st < 0 then upper else lower) | some i => norm i,
+   match b with | none => (if st < 0 then lower else upper) | some i => norm i)
+
+/-- the positions `range(*slice(a, b, st).indices(n))` of an extended slice (`st ≠ 0`) -/
+def extIndices (n : Nat) (a b : Option Int) (st : Int) : List Nat :=
+  let r := sliceIndices n a b st
+  let len : Nat :=
+    if 0 < st then (if r.1 < r.2 then (r.2 - r.1 - 1).toNat / st.toNat + 1 else 0)
+    else (if r.2 < r.1 then (r.1 - r.2 - 1).toNat / (-st).toNat + 1 else 0)
+  (List.range len).map fun (i : Nat) => (r.1 + (i : Int) * st).toNat
+
+/-- `for cur, v in zip(indices, vs): xs[cur] = v` -/
+def setEach (xs : List α) : List Nat → List α → List α
+  | i :: is, v :: vs => setEach (xs.set i v) is vs
+  | _, _ => xs
+
+/-- `xs[a:b:st] = vs` on a Python list; `none` = ValueError (step 0, or an extended slice — step
+    other than 1 — whose size differs from the number of values).  Step 1 (or none) is the plain
+    slice assignment, which may change the length. -/
+def sliceAssign (xs : List α) (a b st : Option Int) (vs : List α) : Option (List α) :=
+  let step := st.getD 1
+  if step = 1 then
+    let r := sliceRange xs.length a b
+    some (splice xs r.1 r.2 vs)
+  else if step = 0 then none
+  else
+    let idxs := extIndices xs.length a b step
+    if vs.length = idxs.length then some (setEach xs idxs vs) else none
 
 /-! ### values a caller may pass -/
 
@@ -162,19 +198,17 @@ inductive UOp
   | remove (u : String)
   | pop (i : Option Int)
   | replace (us : List String)
-  | setItem (i : Int) (u : String)                   -- `lst[i] = u`
-  | setSlice (a b : Option Int) (us : List String)   -- `lst[a:b] = us`
+  | setItem (i : Int) (u : String)                      -- `lst[i] = u`
+  | setSlice (a b st : Option Int) (us : List String)   -- `lst[a:b:st] = us`
   deriving Repr
 
-/-- index/slice assignment — the operations of finding D16a -/
-def UOp.isSet : UOp → Bool
-  | .setItem .. => true
-  | .setSlice .. => true
-  | _ => false
-
-/-- `_filter_func` result as it ends up in the metainfo: `str(None)` = "None" -/
-def filtered (known items : List String) (c : String) : String :=
-  if c ∈ items ∨ c ∈ known then "None" else c
+/-- the last loop of `MonitoredList.__setitem__` (the list was cleared before):
+    `for item in items: if self._filter_func(item) is not None: self._items.append(item)` —
+    the first occurrence of every item is kept, an item known elsewhere (another tier) is dropped;
+    nothing is coerced here (the items are `URL` objects already) -/
+def readd (known : List String) : List String → List String → List String
+  | acc, [] => acc
+  | acc, x :: xs => if x ∈ acc ∨ x ∈ known then readd known acc xs else readd known (acc ++ [x]) xs
 
 def urlsOp (known items : List String) : UOp → Option (List String) × Outcome
   | .insert i u =>
@@ -208,21 +242,23 @@ def urlsOp (known items : List String) : UOp → Option (List String) × Outcome
     | .error e => (none, .error e)
     | .ok r => (some r, .ok)
   | .setItem i u =>
-    -- coercion first (URLError), then the filter on the list as it is BEFORE the assignment,
-    -- then `self._items[i] = value` (IndexError)
+    -- coercion first (URLError), then the assignment on a COPY (`items = list(self._items);
+    -- items[i] = value`: IndexError before anything changed), then clear and add every item again
     match coerce isUrl u with
     | .error e => (none, .error e)
     | .ok c =>
       match pyIndex items.length i with
       | none => (none, .error .index)
-      | some k => (some (splice items k (k + 1) [filtered known items c]), .ok)
-  | .setSlice a b us =>
-    -- the lazy `map` is materialised by the list slice assignment before anything is replaced
+      | some k => (some (readd known [] (items.set k c)), .ok)
+  | .setSlice a b st us =>
+    -- `[self._coerce(v) for v in value]` (URLError), the slice assignment on a copy (ValueError for
+    -- an extended slice of another size / step 0), then clear and add every item again
     match coerceAll isUrl us with
     | .error e => (none, .error e)
     | .ok cs =>
-      let r := sliceRange items.length a b
-      (some (splice items r.1 r.2 (cs.map (filtered known items))), .ok)
+      match sliceAssign items a b st cs with
+      | none => (none, .error .value)
+      | some items' => (some (readd known [] items'), .ok)
 
 /-! ### webseeds / httpseeds -/
 
@@ -457,9 +493,15 @@ def tiersOp (T : Tiers) : TOp → Option Written × Outcome
     | none => (none, .error .index)
     | some k => (some (wOf (splice T k (k + 1) [])), .ok)
   | .replace vs =>
+    -- `tiers = Trackers(tiers)` (raises before anything is touched), then, callback disabled,
+    -- `self._tiers.clear(); for urls in tiers: self.append(urls)` with the `URLs` objects of the
+    -- new `Trackers` object (every URL is coerced and filtered a second time), then the callback
     match tiersAddAll isUrl [] vs with
     | .error e => (none, .error e)
-    | .ok T' => (some (wOf T'), .ok)
+    | .ok T1 =>
+      match tiersAddAll isUrl [] (T1.map .list) with
+      | .error e => (none, .error e)
+      | .ok T' => (some (wOf T'), .ok)
   | .setItem i v => tiersSetItem isUrl T i v
   | .setSlice a b vs => tiersSetSlice isUrl T a b vs
   | .tier ti op => tierOp isUrl T ti op
@@ -511,21 +553,19 @@ def readBack (s : MI) : Option ReadBack :=
   | .ok T, .ok W, .ok H => some ⟨T, W, H⟩
   | _, _, _ => none
 
-/-- index/slice assignment on a URL list (D16a) or slice assignment on the tiers (D16b) -/
+/-- slice assignment on the tiers container (`torrent.trackers[a:b] = …`, open finding D16b) — the
+    only operation the code still gets wrong -/
 def Op.affected : Op → Bool
   | .trackers (.setSlice ..) => true
-  | .trackers (.tier _ op) => op.isSet
-  | .webseeds (.edit op) => op.isSet
-  | .httpseeds (.edit op) => op.isSet
   | _ => false
 
 /-! ### a `Trackers` object that the caller keeps (`tr = torrent.trackers; tr.replace(…); tr.append(…)`)
 
-Only as far as finding D16d needs it: the object's tiers and whether its change callback is still
-set.  While the callback is set, an operation on the held object writes exactly what the same
-operation through a fresh getter call writes (`heldAppend`/`heldReplace` use the same `tiersInsert`
-and `writeTrackers`), which is why the correspondence harness translates held-object histories
-into the fresh-getter state machine above. -/
+The object's tiers and whether its change callback is set, with the order of effects inside
+`replace` / `append` / `clear`.  While the callback is set, an operation on the held object writes
+exactly what the same operation through a fresh getter call writes (`heldAppend`/`heldReplace` use
+the same `tiersInsert`/`tiersAddAll` and `writeTrackers`), which is why the correspondence harness
+translates held-object histories into the fresh-getter state machine above. -/
 
 structure HeldTr where
   tiers : Tiers
@@ -533,7 +573,7 @@ structure HeldTr where
   deriving DecidableEq, Repr
 
 /-- `self._tiers.clear(); for urls in tiers: self.append(urls)` (callback disabled): the tiers
-    appended before a failure stay in the object -/
+    appended before a failure would stay in the object -/
 def heldReplaceLoop : Tiers → List TierVal → Tiers × Outcome
   | T, [] => (T, .ok)
   | T, v :: vs =>
@@ -541,15 +581,18 @@ def heldReplaceLoop : Tiers → List TierVal → Tiers × Outcome
     | .error e => (T, .error e)
     | .ok T' => heldReplaceLoop T' vs
 
-/-- `Trackers.replace(vs)`: `with self._callback_disabled(): clear; append…` then the callback.
-    `_callback_disabled()` restores the callback in a `finally` clause, so an exception inside the
-    block leaves the callback as it was — but the tiers are cleared BEFORE the new values are
-    validated (unlike `MonitoredList.replace`), so a `replace` that raises leaves the object half
-    replaced while nothing is written (finding D16d). -/
+/-- `Trackers.replace(vs)`: `tiers = Trackers(tiers)` FIRST (since /repo 41bec34; a rejected value
+    raises here, before the object is touched), then `with self._callback_disabled(): clear;
+    append…` with the tiers of that new object, then the callback.  `_callback_disabled()` restores
+    the callback in a `finally` clause.  If the second loop raised, the object would be left half
+    replaced — `C16_held_replace_second_pass_total` shows that it cannot. -/
 def heldReplace (s : MI) (h : HeldTr) (vs : List TierVal) : MI × HeldTr × Outcome :=
-  match heldReplaceLoop isUrl [] vs with
-  | (T', .error e) => (s, { h with tiers := T' }, .error e)
-  | (T', .ok) => (if h.cb then writeTrackers s (wOf T') else s, { h with tiers := T' }, .ok)
+  match tiersAddAll isUrl [] vs with
+  | .error e => (s, h, .error e)
+  | .ok T1 =>
+    match heldReplaceLoop isUrl [] (T1.map .list) with
+    | (T', .error e) => (s, { h with tiers := T' }, .error e)
+    | (T', .ok) => (if h.cb then writeTrackers s (wOf T') else s, { h with tiers := T' }, .ok)
 
 /-- `Trackers.append(v)` on the held object -/
 def heldAppend (s : MI) (h : HeldTr) (v : TierVal) : MI × HeldTr × Outcome :=
@@ -563,12 +606,6 @@ def heldClear (s : MI) (h : HeldTr) : MI × HeldTr × Outcome :=
 
 inductive HOp | replace (vs : List TierVal) | append (v : TierVal) | clear
   deriving Repr
-
-/-- a `replace` whose argument is rejected (it starts from the cleared object, so whether it
-    raises does not depend on the state) — the operation of finding D16d -/
-def HOp.failingReplace : HOp → Bool
-  | .replace vs => decide ((heldReplaceLoop isUrl [] vs).2 ≠ .ok)
-  | _ => false
 
 def heldStep (s : MI) (h : HeldTr) : HOp → MI × HeldTr × Outcome
   | .replace vs => heldReplace isUrl s h vs
@@ -586,6 +623,21 @@ def Mirrors (s : MI) (T : Tiers) : Prop :=
   s.announce = (wOf T).1 ∧ s.announceList = (if (wOf T).2.1 ≤ 1 then none else some T)
 
 instance (s : MI) (T : Tiers) : Decidable (Mirrors s T) := by unfold Mirrors; infer_instance
+
+/-- ANY operation of the tiers state machine applied to a held `Trackers` object with tiers `T`
+    whose callback is set (the fresh-getter translation of the harness): the callback writes what
+    it is handed, and the object holds what the last callback call saw — an operation that raises
+    before any callback call leaves object and metainfo as they were.  (`.set` is an assignment to
+    the property, not an operation on the object: nothing happens here.) -/
+def heldOp (s : MI) (T : Tiers) (op : TOp) : MI × Tiers × Outcome :=
+  match tiersOp isUrl T op with
+  | (none, out) => (s, T, out)
+  | (some w, out) => (writeTrackers s w, w.2.2, out)
+
+def heldOps (s : MI) (T : Tiers) : List TOp → MI × Tiers
+  | [] => (s, T)
+  | op :: ops => match heldOp isUrl s T op with
+    | (s', T', _) => heldOps s' T' ops
 
 end
 end Torf.Lists
